@@ -40,8 +40,9 @@ Proof. exact emit_not_early. Qed.
 Print Assumptions C11_emit_not_early.
 
 (* ---- pacing, upper bound: MAXIMAL PROGRESS with a consumer that keeps up ----
-   [mp_reachable c no_env s]: s is reached by an execution of [step] in which every clock event [EAdvance t]
-   happens in a [settled] state (= [quiescent]: no step of the goroutine enabled, and [no_receive]: the consumers
+   [mp_reachable c all_outs no_env s] ([all_outs]: every output has a consumer; [no_env]: no further obligation of the
+   environment): s is reached by an execution of [step] in which every clock event [EAdvance t]
+   happens in a [settled] state (= [quiescent]: no step of the goroutine enabled, and [no_receive_on]: the consumers
    of the value channel out 0 and of the error channel out 1 have taken everything available) and t does not
    exceed a pending timer deadline; no ECancel ([mp_allowed]).
    [rounds s] = loop iterations entered; [emit_calls s] = applications of f made (the application of iteration i
@@ -52,7 +53,7 @@ Print Assumptions C11_emit_not_early.
    only) it returned at its first failing index n, at time (n+1)*freq, everything received, both channels closed.
    For all capacities. *)
 Theorem C11_emit_keeps_up : forall (freq : N) (f : Z -> res) (try : bool) (ocaps : list nat) (s : state),
-  mp_reachable (emit_cfg freq f try ocaps) no_env s -> settled (emit_cfg freq f try ocaps) s ->
+  mp_reachable (emit_cfg freq f try ocaps) all_outs no_env s -> settled (emit_cfg freq f try ocaps) all_outs s ->
   (exists n : nat, emit_sleeping freq f try s n /\ emit_calls s = n /\
              (N.of_nat n * freq <= now s < (N.of_nat n + 1) * freq)%N /\
              delivered s 0 = ok_vals f (zrange 0 n) /\ delivered s 1 = err_vals f (zrange 0 n) /\
@@ -70,14 +71,14 @@ Print Assumptions C11_emit_keeps_up.
    (top of the loop / after the sleep: now = rounds*freq; before the sleep: now = (rounds-1)*freq; in the sleep:
    deadline rounds*freq and (rounds-1)*freq <= now <= deadline; returned: rounds*freq <= now) *)
 Theorem C11_emit_pace_invariant : forall (freq : N) (f : Z -> res) (try : bool) (ocaps : list nat) (s : state),
-  mp_reachable (emit_cfg freq f try ocaps) no_env s -> pinv freq f try s.
+  mp_reachable (emit_cfg freq f try ocaps) all_outs no_env s -> pinv freq f try s.
 Proof. exact pinv_mp_reachable. Qed.
 Print Assumptions C11_emit_pace_invariant.
 
 (* in the words of the property: at the instant k*freq, once its activity has settled, exactly k calls have been
    made and the results of all of them have been received: value f(i) at tick i+1, one per tick *)
 Theorem C11_emit_one_per_tick : forall (freq : N) (f : Z -> res) (try : bool) (ocaps : list nat) (s : state) (k : nat),
-  mp_reachable (emit_cfg freq f try ocaps) no_env s -> settled (emit_cfg freq f try ocaps) s ->
+  mp_reachable (emit_cfg freq f try ocaps) all_outs no_env s -> settled (emit_cfg freq f try ocaps) all_outs s ->
   (0 < freq)%N -> now s = (N.of_nat k * freq)%N ->
   (emit_calls s = k /\ delivered s 0 = ok_vals f (zrange 0 k) /\ delivered s 1 = err_vals f (zrange 0 k))
   \/
@@ -88,7 +89,7 @@ Print Assumptions C11_emit_one_per_tick.
 
 Theorem C11_emit_one_per_tick_try : forall (freq : N) (f : Z -> res) (try : bool) (ocaps : list nat) (s : state) (k : nat),
   try = true ->
-  mp_reachable (emit_cfg freq f try ocaps) no_env s -> settled (emit_cfg freq f try ocaps) s ->
+  mp_reachable (emit_cfg freq f try ocaps) all_outs no_env s -> settled (emit_cfg freq f try ocaps) all_outs s ->
   (0 < freq)%N -> now s = (N.of_nat k * freq)%N ->
   emit_calls s = k /\ delivered s 0 = ok_vals f (zrange 0 k) /\ delivered s 1 = err_vals f (zrange 0 k).
 Proof. exact emit_one_per_tick_try. Qed.
@@ -96,7 +97,7 @@ Print Assumptions C11_emit_one_per_tick_try.
 
 (* while Emit runs, the number of results received (values + errors) IS the number of elapsed ticks *)
 Theorem C11_emit_rate : forall (freq : N) (f : Z -> res) (try : bool) (ocaps : list nat) (s : state),
-  mp_reachable (emit_cfg freq f try ocaps) no_env s -> settled (emit_cfg freq f try ocaps) s ->
+  mp_reachable (emit_cfg freq f try ocaps) all_outs no_env s -> settled (emit_cfg freq f try ocaps) all_outs s ->
   (0 < freq)%N -> wc (ws s 0) <> WDone ->
   N.of_nat (length (delivered s 0) + length (delivered s 1)) = (now s / freq)%N.
 Proof. exact emit_rate. Qed.
@@ -106,15 +107,15 @@ Print Assumptions C11_emit_rate.
    state at time 9 with 3 calls made; a fail-fast run reaches the returned state; the policy refuses to jump over
    a deadline and to move the clock while a value waits in the buffer *)
 Theorem C11_emit_keeps_up_nonvacuous :
-  exists s, mp_reachable (emit_cfg 3 pace_ex_f true [0%nat; 1%nat]) no_env s /\
-            settled (emit_cfg 3 pace_ex_f true [0%nat; 1%nat]) s /\
+  exists s, mp_reachable (emit_cfg 3 pace_ex_f true [0%nat; 1%nat]) all_outs no_env s /\
+            settled (emit_cfg 3 pace_ex_f true [0%nat; 1%nat]) all_outs s /\
             now s = 9%N /\ emit_calls s = 3%nat /\ delivered s 0 = [0; 20] /\ delivered s 1 = [7].
 Proof. exact emit_mp_example. Qed.
 Print Assumptions C11_emit_keeps_up_nonvacuous.
 
 Theorem C11_emit_keeps_up_nonvacuous_failfast :
-  exists s, mp_reachable (emit_cfg 3 pace_ex_f false [0%nat; 1%nat]) no_env s /\
-            settled (emit_cfg 3 pace_ex_f false [0%nat; 1%nat]) s /\
+  exists s, mp_reachable (emit_cfg 3 pace_ex_f false [0%nat; 1%nat]) all_outs no_env s /\
+            settled (emit_cfg 3 pace_ex_f false [0%nat; 1%nat]) all_outs s /\
             now s = 100%N /\ wc (ws s 0) = WDone /\ emit_calls s = 2%nat /\ delivered s 0 = [0] /\ delivered s 1 = [7].
 Proof. exact emit_mp_example_failfast. Qed.
 Print Assumptions C11_emit_keeps_up_nonvacuous_failfast.
